@@ -297,7 +297,9 @@ class as_format_mapping:
             # not found on any target
             raise KeyError(item)
 
-        if self.transform:
+        # only non-empty text is translatable: gettext('') is the catalogue
+        # header, and unhashable values cannot be catalogue keys
+        if self.transform and isinstance(value, str) and value:
             return self.transform(value)
         else:
             return value
